@@ -24,11 +24,15 @@ type Box struct {
 }
 
 // New creates a sandbox. The OS variant lives in a fresh temporary directory (TMPDIR).
-func New(kind string) *Box {
+func New(kind string) *Box { return NewAt(kind, "", "box-", "/box") }
+
+// NewAt creates a sandbox whose OS root is os.MkdirTemp(parent, prefix) and whose in-memory root is memRoot:
+// for checks that need a root path free of certain characters.
+func NewAt(kind, parent, prefix, memRoot string) *Box {
 	b := &Box{Kind: kind}
 	if kind == "mem" {
 		b.Raw = afero.NewMemMapFs()
-		b.Root = "/box"
+		b.Root = memRoot
 		_ = b.Raw.MkdirAll(b.Root, 0o755)
 		b.Backend = fsx.NewBackend(b.Raw)
 		b.Backend.Serialize = true
@@ -36,7 +40,7 @@ func New(kind string) *Box {
 		b.FS = filesystem.NewVirtualFileSystem(b.Client.Fs(false), filesystem.InMemoryFS, filesystem.IdentityPathConverterFunc)
 		return b
 	}
-	dir, err := os.MkdirTemp("", "box-")
+	dir, err := os.MkdirTemp(parent, prefix)
 	if err != nil {
 		panic(err)
 	}
